@@ -41,6 +41,9 @@ class Req:
             self.close = True
         elif r < 0.2:
             self.headers.append((b"Connection", b"keep-alive"))
+        elif r > 0.88 and self.framing in ("cl", "chunked") and self.body and self.version == "1.1":
+            # an h2c upgrade offer on a request with a body must be ignored (RFC 7540 3.2): plain HTTP/1.1 service
+            self.headers += [(b"Connection", b"Upgrade, HTTP2-Settings"), (b"Upgrade", b"h2c"), (b"HTTP2-Settings", b"AAMAAABkAAQAAP__")]
         if self.version == "1.0":
             self.close = True
 
